@@ -20,7 +20,9 @@ ASSUMPTIONS = ["only documents whose outermost element is <svg> (single root) ar
 C2_FIXED = [None, dict(debug=True, meta=True)]
 # 'under any configuration': the limits of the second pass are part of it (already-processed SVG is passed through, whatever they are)
 C2_LIMITS = [dict(depth=0), dict(depth=1), dict(depth=2), dict(depth=3), dict(loop=0), dict(var=0), dict(depth=2, loop=1, var=1, debug=True)]
-EDGE_DOCS = ["<svg/>", "<svg></svg>", "<svg> </svg>", "<svg>\n</svg>", "<svg><!-- c --></svg>", "<!-- c --><svg><rect wh=\"1\"/></svg><!-- d -->",
+EDGE_DOCS = ['<svg xmlns="https://www.w3.org/2000/svg"><rect xy="1 2" wh="4 2" text="a"/></svg>', '<svg xmlns="http://www.w3.org/2000/svg/"><rect wh="3"/></svg>',
+             '<svg xmlns=""><rect wh="3" class="d-red"/></svg>', '<svg xmlns="http://example.com/ns"><circle r="2"/></svg>',
+             "<svg/>", "<svg></svg>", "<svg> </svg>", "<svg>\n</svg>", "<svg><!-- c --></svg>", "<!-- c --><svg><rect wh=\"1\"/></svg><!-- d -->",
              "<?xml version=\"1.0\"?>\n<svg><rect wh=\"1\" text=\"a\"/></svg>\n", "<svg><svg><rect wh=\"1\"/></svg></svg>",
              "<svg width=\"10cm\"><rect wh=\"4 2\"/></svg>", "<svg viewBox=\"0 0 1 1\" height=\"50%\"><rect wh=\"4 2\"/></svg>",
              "<svg><text>plain</text></svg>", "<svg>text &amp; more<rect wh=\"1\"/>tail &lt;</svg>",
@@ -50,6 +52,10 @@ def check_case(ctx, case):
         return
     y = r1.out
     generated = any(t in y for t in (b"<text", b"<style", b"<defs", b"<!--", b"data-src-line"))
+    # input class for signatures: a root <svg> declaring a default namespace other than SVG's is copied through unprocessed
+    # by svgdx without being marked as finished (known finding); everything else is the ordinary class
+    xm = (attrs or {}).get("xmlns")
+    icls = "@foreign-xmlns-root" if (xm is not None and xm != c02.SVGNS) else ""
     for c2 in case["c2s"]:
         r2 = ctx.run(y, c2)
         if generated:
@@ -59,12 +65,12 @@ def check_case(ctx, case):
             acc.count("crashed(C01's business)")
             continue
         if r2.status != "ok":
-            acc.violation("second-pass-fails", "second-pass-fails:%s" % r2.kind, sub, observed=dict(err=core.trunc(r2.err, 400), y=core.trunc(y, 800)),
+            acc.violation("second-pass-fails", "second-pass-fails:%s%s" % (r2.kind, icls), sub, observed=dict(err=core.trunc(r2.err, 400), y=core.trunc(y, 800)),
                           expected="Ok", what="T(T(x)) fails: %s" % core.trunc(r2.err, 200))
             continue
         if r2.out != y:
             where, i = diff_class(y, r2.out)
-            acc.violation("not-fixed-point", "differs/%s" % where, sub,
+            acc.violation("not-fixed-point", "differs/%s%s" % (where, icls), sub,
                           observed=dict(offset=i, first=core.trunc(y[max(0, i - 80):i + 80], 400), second=core.trunc(r2.out[max(0, i - 80):i + 80], 400)),
                           expected="identical bytes", what="T_c2(T_c1(x)) differs from T_c1(x) at byte %d (%s)" % (i, where))
 
